@@ -132,9 +132,10 @@ class Generator(SchemaVisitor[Any]):
                 if is_ellipsis(elem):
                     continue
                 elements.append(elem.__accept__(self, **kwargs))
-            if (schema.props.len is not Nil) and (len(elements) < schema.props.len):
-                # `...` stands for arbitrary elements, pad up to the declared length
-                padding = [None] * (schema.props.len - len(elements))
+            required = schema.props.len if (schema.props.len is not Nil) else schema.props.min_len
+            if (required is not Nil) and (len(elements) < required):
+                # `...` stands for arbitrary elements, pad up to the declared (minimal) length
+                padding = [None] * (required - len(elements))
                 if is_ellipsis(schema.props.elements[-1]):
                     elements = elements + padding
                 else:
